@@ -9,6 +9,7 @@ import (
 	"math"
 	"sort"
 
+	"google.golang.org/protobuf/encoding/protowire"
 	"google.golang.org/protobuf/internal/verifh/core"
 	"google.golang.org/protobuf/proto"
 	"google.golang.org/protobuf/reflect/protoreflect"
@@ -168,7 +169,29 @@ func Project(m protoreflect.Message) map[string]any {
 	if m.IsValid() {
 		u = m.GetUnknown()
 	}
-	return map[string]any{"f": fs, "u": core.B(u)}
+	return map[string]any{"f": fs, "u": core.B(normUnknown(u))}
+}
+
+// normUnknown re-encodes the tags of raw unknown fields minimally.  The fast path stores unknown fields
+// with a canonical tag, the reflection path keeps the input bytes: the properties allow exactly this
+// difference ("up to unknown-field tag normalization").
+func normUnknown(u []byte) []byte {
+	var out []byte
+	b := u
+	for len(b) > 0 {
+		num, typ, n := protowire.ConsumeTag(b)
+		if n < 0 {
+			return u
+		}
+		m := protowire.ConsumeFieldValue(num, typ, b[n:])
+		if m < 0 {
+			return u
+		}
+		out = protowire.AppendTag(out, num, typ)
+		out = append(out, b[n:n+m]...)
+		b = b[n+m:]
+	}
+	return out
 }
 
 // ---------------------------------------------------------------- literals -> real values
